@@ -1,6 +1,7 @@
 # SPDX-License-Identifier: AGPL-3.0
 
 import argparse
+import math
 import os
 import re
 import shlex
@@ -109,12 +110,21 @@ class ParseTimeout(argparse.Action):
 
     @staticmethod
     def unparse(value: float) -> str:
-        # less than 1s, render as ms
-        if value < 1:
-            return f"{int(value * 1000)}ms"
+        # render so that parse(unparse(value)) == value (no truncation)
+        value = float(value)
 
-        # otherwise, render as s
-        return f"{int(value)}s"
+        # integral number of seconds
+        if value.is_integer():
+            return f"{int(value)}s"
+
+        # integral number of milliseconds (guarding against float rounding)
+        if math.isfinite(value):
+            ms = round(value * 1000)
+            if ms / 1000 == value:
+                return f"{ms}ms"
+
+        # otherwise, render the exact float as s
+        return f"{value!r}s"
 
 
 class ParseCSVTraceEvent(argparse.Action):
